@@ -65,9 +65,9 @@ META = {
  "C17": dict(ref="6.17", technique="Lean 4 proof (table obligations by decide, lookup and sieve invariants) + bit-exact correspondence",
    text="tables dumped from the built library are kernel-checked against their defining formulas; lookup/count theorems lift them to pi(n) and exact unsieved counts; real objects are compared bit for bit with the L2 model.",
    note="prime generator = abstract prime sequence (C18). Large multi-threaded tables are compared by hash with the mirror model and a differing entry is judged against the documented encoding."),
- "C18": dict(ref="6.18", technique="Lean 4 proof (iterator window logic) + correspondence against proved oracle — partial",
-   text="partial: window contiguity of the iterator is proved for any stop hint; the sieving core is tied only by correspondence against the proved window oracle.",
-   note="Erat*/PreSieve/PrimeGenerator not modelled."),
+ "C18": dict(ref="6.18", technique="Lean 4 proof (iterator state machine refines the abstract prime cursor for every history; segmented wheel sieve, pre-sieve, bucket sieve and prime extraction proved to yield exactly the primes of [start, stop]) + generated table obligations + bit-exact segment-level correspondence — partial",
+   text="partial: (a) the iterator layer (iterator.cpp, IteratorHelper.cpp, the table path of PrimeGenerator, nthPrime, ParallelSieve tiling, store_primes) is an L2 state machine proved to refine the abstract cursor (k-th next_prime = k-th prime >= start, prev_prime likewise then 0) for every stop hint, every float outcome and every batching, given the generator contract; (b) the sieving core (Erat, EratSmall/Medium/Big, PreSieve, SievingPrimes, bit extraction, counting) is modelled bit-exactly and proved: segment_sieve_correct, generator_contract, count_contract for every start, every stop < 2^64 and every sieve size; the wheel / pre-sieve / small-primes tables are regenerated from the source and kernel-checked; every segment's raw sieve array is compared bit for bit with the real classes.",
+   note="partial because: FloatOk (maxEratMedium < 2^25, a float product) is a named hypothesis for stop >= 2^50; the instantiation of the iterator's GenSpec by the core's generator_contract is not yet a theorem; SIMD variants (AVX512/NEON/SVE PrimeGenerator, PreSieve), MemoryPool, ctz/popcnt are tied by correspondence only; above 1e14 the executable oracle of the iterator streams is deterministic Miller-Rabin (not proved)."),
  "C19": dict(ref="6.19", technique="Lean 4 proof (series monotone, saturation, termination) + enclosure correspondence — partial",
    text="partial: integer/rational logic of Li/R and inverses proved; accuracy vs true functions depends on libm/x87.",
    note="real analysis and long double not formalised."),
